@@ -66,10 +66,13 @@ def evalGenName (c : Ctx) : PyAst → Option GenName
   | _ => none
 
 /-- optional keyword argument read with `f` -/
-def kwOpt {α : Type} (items : List Item) (n : String) (f : PyAst → Option α) : Option (Option α) :=
-  match kwArg (S n) items with
+def kwOptV {α : Type} (v : Option PyAst) (f : PyAst → Option α) : Option (Option α) :=
+  match v with
   | none => some none
   | some v => (f v).map some
+
+def kwOpt {α : Type} (items : List Item) (n : String) (f : PyAst → Option α) : Option (Option α) :=
+  kwOptV (kwArg (S n) items) f
 
 end Model.Render
 
